@@ -290,6 +290,9 @@ func cmdCheck(args []string) int {
 		if *only != "" && hs.Name != *only {
 			continue
 		}
+		if hs.ThoroughOnly && !thorough {
+			continue
+		}
 		maxPaths := hs.MaxPathsQ
 		steps := hs.StepsQ
 		if thorough {
